@@ -20,6 +20,28 @@ NS = 21
 RAWBYTES = bytes(x for x in range(1, 256) if x not in (0x2a, 0x2b, 0x7b))
 # replays of the known finding "nullable loop body: catastrophic backtracking" (DESIGN.md appendix A, item 9)
 CORPUS = [("(a*)*b", "aaaaaaaaaaaaaaaaaaaaaaaa\n"), ("(()?)*x", "ab\n")]
+SHAPE_LINES = [[10], [97, 10], [98, 10], [65, 10], [233, 10], [32, 10]]      # Gen_Regex!Lines(1)
+
+
+def shapes():
+    """(patterns whose reference result is cheap to enumerate, patterns checked for size and safety only)"""
+    out, sizeonly = [], []
+    for k in (1, 2, 29, 30, 31, 32, 33, 34, 61, 62, 63, 64, 65, 66, 67, 70, 100, 127, 128, 129, 200):
+        out.append("(a)" * k)
+        sizeonly.append("(a?)" * k)
+        out.append("(a)" * k + "|b")
+    for k in (30, 31, 32, 33, 62, 63, 64, 65, 66, 130):
+        out.append("(" * k + "a" + ")" * k)
+    out += ["a{127}", "a{128}", "a{129}", "a{128,}", "a{127,128}", "(a{128}){2}b", "((a{16}){8})", "a{0}{5}", "a{128}{2}"]
+    sizeonly += ["a{0,128}", "a{1,128}", "a?{128}", "(ab|c){64,128}", "(a|b){0,128}", "(a{0,128}){0,2}"]
+    out += ["a{2147483647}", "a{2147483648}", "a{4294967297}", "a{99999999999}", "a{1,4294967297}", "a{0,2147483648}",
+            "a{130,1}", "a{00000000000000000001}"]
+    out += ["a|" * 300 + "b", "a" * 2000, "[" + "".join("%c-%c" % (c, c) for c in "abcdefghijklmnopqrstuvwxyz" * 8) + "]",
+            "[[:alpha:][:digit:][:space:]" * 20 + "]"]
+    sizeonly += ["(a|" * 60 + "b" + ")" * 60, "a*" * 100, "(a" * 40 + ")*" * 40]
+    return out, sizeonly
+
+
 LINES = ["\n", "a\n", "ab\n", "aab a\n", "éa漢 b\n", "((a))|{1,2}\n", "a" * 300 + "\n", "é" * 120 + "b\n"]
 
 
@@ -53,6 +75,12 @@ def main(ctx, args):
         f = ctx.path("gen", "cidx_%d.ndjson" % i)
         open(f, "w").write("".join(json.dumps(x) + "\n" for x in rnd_valid[i:i + per]))
         jobs.append(dict(MODE="cplist", IDXFILE=f, LMAX=0))
+    # boundary shapes at the real constants (NGRPS = 64 marks, NREPS = 128): expected results come from the spec
+    shp, shp_size = shapes()
+    for k, (part, mode) in enumerate(((shp[0::2], "cplines"), (shp[1::2], "cplines"), (shp_size, "cplist"))):
+        f = ctx.path("gen", "shapes%d.ndjson" % k)
+        open(f, "w").write("".join(json.dumps([ord(ch) for ch in x]) + "\n" for x in part))
+        jobs.append(dict(MODE=mode, IDXFILE=f, LMAX=1))
     tables = gen_tables(ctx, jobs)
     exe = ctx.probe("reprobe")
     st = dict(strings=0, accepted=0, rejected=0, flawed=0, matches=0, found=0, unfit=0, random=nrand, cut=0, eloop=0)
@@ -75,11 +103,30 @@ def main(ctx, args):
             reqs.append("M 0 0 0 %d 1 %s -" % (NG, hp))
             meta.append((c, [], (0, 0, 0)))
             continue
+        if c.get("res"):
+            for li, ln in enumerate(SHAPE_LINES):
+                for fl in ((0, 0, 0), (1, 1, 0)):
+                    reqs.append("M %d %d %d %d 1 %s %s" % (fl[0], fl[1], fl[2], NG, hp, enc(ln)))
+                    meta.append((dict(c, _li=li + 1), ln, fl))
         sel = lines[:3] + [lines[3 + (len(reqs) // 7) % (len(lines) - 3)]]
         for k, ln in enumerate(sel):
             fl = (k % 2, (k // 2) % 2, 1 if k == 3 else 0)
             reqs.append("%s %d %d %d %d 1 %s %s" % ("M" if k != 1 else "S", fl[0], fl[1], fl[2], NG, hp, enc(ln)))
             meta.append((c, ln, fl))
+    # pattern sets with many members: group bookkeeping of rset.c around the mark limit
+    for nm in (1, 2, 29, 30, 31, 32, 33, 61, 62, 63, 64, 65, 66, 90):
+        for grp in (0, 1):
+            pats = [("(%s)" if grp else "%s") % chr(97 + (j % 26)) for j in range(nm)]
+            for ltxt in ("a\n", "zz%s\n" % chr(97 + ((nm - 1) % 26))):
+                reqs.append("M 0 0 0 %d %d %s %s" % (NG, nm, " ".join(x.encode().hex() for x in pats), ltxt.encode().hex()))
+                # leftmost position wins, then the first member that matches there; members whose own group
+                # lies beyond the engine's 64 groups are outside the supported range: only safety is required
+                pos = min(i for i, ch in enumerate(ltxt) if any(chr(97 + (j % 26)) == ch for j in range(nm)))
+                exp_idx = min(j for j in range(nm) if chr(97 + (j % 26)) == ltxt[pos])
+                if 2 + exp_idx * (2 if grp else 1) >= 64:
+                    exp_idx = None
+                meta.append(({"p": None, "raw": ("set of %d members%s" % (nm, " with groups" if grp else "")).encode().hex(),
+                              "set_expect": exp_idx}, [ord(ch) for ch in ltxt], (0, 0, 0)))
     for i, b in enumerate(rnd_raw):
         ln = lines[i % len(lines)]
         for kind in "MS":
@@ -128,6 +175,16 @@ def main(ctx, args):
             elif r["kind"] == "r" and not c.get("corpus") and (r["alloc"], r["used"]) != (c["alloc"], c["used"]):
                 ctx.violation("pattern %s: program reserved/used %d/%d, the spec's CountEst/EmitLen give %d/%d" %
                               (ptxt, r["alloc"], r["used"], c["alloc"], c["used"]), rep, {"kind": "size-binding"})
+        if c.get("res") and r["kind"] == "r" and r["cuts"] == 0:
+            # shapes: exact expected result from the spec for this (line, flags)
+            want = [x for x in c["res"] if x[0] == c.get("_li") and flags_of(x[1]) == tuple(fl)]
+            got = [] if r["ret"] < 0 else [r["ret"]] + r["offs"]
+            if want and want[0][2] != got:
+                ctx.violation("pattern %s on %r: expected %s, matcher gave %s" % (ptxt[:80], rep["line"], want[0][2], got),
+                              rep, {"kind": "shape-mismatch"})
+        if c.get("set_expect") is not None and (r["kind"] != "r" or r["ret"] != c["set_expect"]):
+            ctx.violation("%s on %r: expected member %d, got %s" % (ptxt, rep["line"], c["set_expect"], resp), rep,
+                          {"kind": "set-index"})
         if r["kind"] == "E":
             st["rejected"] += 1
             continue
